@@ -14,6 +14,16 @@ import (
 	"github.com/robustirc/robustirc/internal/robust"
 )
 
+// firstLine returns s up to (excluding) the first CR, LF or NUL byte: what
+// clients send ends up verbatim in lines delivered to other clients, so it
+// must not be possible to smuggle in a line separator.
+func firstLine(s string) string {
+	if idx := strings.IndexAny(s, "\r\n\x00"); idx > -1 {
+		return s[:idx]
+	}
+	return s
+}
+
 // handlePostMessage is called by the robustirc-bridge whenever a message should be
 // posted. The handler blocks until either the data was written or an error
 // occurred. If successful, it returns the unique id of the message.
@@ -68,12 +78,9 @@ func (api *HTTP) handlePostMessage(w http.ResponseWriter, r *http.Request, sessi
 		remoteAddr = host
 	}
 
-	// IRC messages are separated by the newline character, so ensure the
-	// message does not contain any newlines.
-	data := req.Data
-	if idx := strings.IndexByte(data, '\n'); idx > -1 {
-		data = data[:idx]
-	}
+	// IRC messages are separated by CR and/or LF and must not contain NUL,
+	// so ensure the message contains none of these.
+	data := firstLine(req.Data)
 	msg := &robust.Message{
 		Session:         session,
 		Type:            robust.IRCFromClient,
